@@ -15,22 +15,71 @@ Proof. intros [] []; cbn; repeat split; intros; try congruence; try (destruct H;
 
 Lemma C10_select_fresh : forall t o,
   C10_select None t o = {| d_kind := C10_kind_of_flags (o_eq o) (o_ineq o); d_on_para := t_on_para t;
-                          d_order := t_order t; d_maxit := o_maxit_proj o |}.
+                          d_order := o_order o; d_maxit := o_maxit_proj o |}.
 Proof. reflexivity. Qed.
 Lemma C10_select_cached : forall d t o, C10_select (Some d) t o = d.
 Proof. reflexivity. Qed.
-(* the option's projection order never reaches the closure (see the note in the model) *)
-Lemma C10_select_ignores_option_order : forall c t e i ord ord' mx,
-  C10_select c t {| o_eq := e; o_ineq := i; o_order := ord; o_maxit_proj := mx |} =
-  C10_select c t {| o_eq := e; o_ineq := i; o_order := ord'; o_maxit_proj := mx |}.
+Lemma C10_select_table : forall t o,
+  let d := C10_select None t o in
+  (d_kind d = KPhysical <-> o_eq o = true /\ o_ineq o = true) /\
+  (d_kind d = KEq <-> o_eq o = true /\ o_ineq o = false) /\
+  (d_kind d = KIneq <-> o_eq o = false /\ o_ineq o = true) /\
+  (d_kind d = KIdentity <-> o_eq o = false /\ o_ineq o = false) /\
+  d_on_para d = t_on_para t /\ d_order d = o_order o /\ d_maxit d = o_maxit_proj o.
+Proof. intros t o. cbn. destruct (C10_kind_table (o_eq o) (o_ineq o)) as [A [B [C D]]]. repeat split; tauto. Qed.
+(* the template's order has no influence: the closure runs in the order it is given *)
+Lemma C10_select_ignores_template_order : forall c p ord ord' o,
+  C10_select c {| t_on_para := p; t_order := ord |} o = C10_select c {| t_on_para := p; t_order := ord' |} o.
+Proof. intros [d|] p ord ord' o; reflexivity. Qed.
+
+(* AS CODED BEFORE FIX qoperation-func-proj-physical-with-var-order: the option's projection order never reached the closure *)
+Lemma C10_select_before_fix_ignores_option_order : forall c t e i ord ord' mx,
+  C10_select_before_fix c t {| o_eq := e; o_ineq := i; o_order := ord; o_maxit_proj := mx |} =
+  C10_select_before_fix c t {| o_eq := e; o_ineq := i; o_order := ord'; o_maxit_proj := mx |}.
 Proof. intros [d|] t e i ord ord' mx; reflexivity. Qed.
+(* ... it is the repaired selection run with the template's order in place of the option's *)
+Lemma C10_select_before_fix_eq : forall c t o,
+  C10_select_before_fix c t o =
+  C10_select c t {| o_eq := o_eq o; o_ineq := o_ineq o; o_order := t_order t; o_maxit_proj := o_maxit_proj o |}.
+Proof. intros [d|] t o; reflexivity. Qed.
+(* ... and differs from the repaired selection exactly when a fresh physical projection is asked for in the other order *)
+Lemma C10_select_before_fix_differs : forall t o,
+  C10_select_before_fix None t o = C10_select None t o <-> t_order t = o_order o.
+Proof. intros t o. unfold C10_select_before_fix, C10_select. split.
+  - intro H. injection H. auto.
+  - intro H. rewrite H. reflexivity. Qed.
 
 Lemma C10_apply_table : forall (V : Type) (Pphys : C10_order -> bool -> Z -> V -> V) (Peq Pineq : bool -> V -> V) t o,
   C10_apply Pphys Peq Pineq (C10_select None t o) =
-  (if o_eq o then (if o_ineq o then Pphys (t_order t) (t_on_para t) (o_maxit_proj o) else Peq (t_on_para t))
+  (if o_eq o then (if o_ineq o then Pphys (o_order o) (t_on_para t) (o_maxit_proj o) else Peq (t_on_para t))
    else (if o_ineq o then Pineq (t_on_para t) else (fun x => x))).
 Proof. intros V Pphys Peq Pineq t o. unfold C10_apply, C10_select. cbn.
   destruct (o_eq o), (o_ineq o); reflexivity. Qed.
+
+(* ---- histories of configurations *)
+Lemma C10_configure_given : forall a c, a_given (C10_configure a c) = a_given a.
+Proof. intros a c. unfold C10_configure. destruct (a_given a) eqn:E; [exact E|reflexivity]. Qed.
+Lemma C10_configure_seq_given : forall cfgs a, a_given (fold_left C10_configure cfgs a) = a_given a.
+Proof. induction cfgs as [|c l IH]; intros a; cbn [fold_left]; [reflexivity|]. rewrite IH. apply C10_configure_given. Qed.
+(* a projection handed to the constructor is the installed one after ANY sequence of configurations *)
+Lemma C10_configure_seq_keeps_given : forall cfgs a d, a_given a = Some d ->
+  C10_installed (fold_left C10_configure cfgs a) = Some d.
+Proof. intros cfgs a d H. unfold C10_installed. rewrite C10_configure_seq_given, H. reflexivity. Qed.
+(* otherwise the installed projection is the one the decision table derives from the LAST configuration, whatever came before *)
+Lemma C10_configure_seq_last : forall cfgs a c, a_given a = None ->
+  C10_installed (fold_left C10_configure (cfgs ++ [c]) a) = Some (C10_select None (fst c) (snd c)).
+Proof. intros cfgs a c H. rewrite fold_left_app. cbn [fold_left].
+  pose proof (C10_configure_seq_given cfgs a) as G. rewrite H in G.
+  remember (fold_left C10_configure cfgs a) as X. unfold C10_installed, C10_configure. rewrite G. reflexivity. Qed.
+(* AS CODED BEFORE FIX pgd-cached-func-proj: the projection derived from the FIRST configuration stays installed *)
+Lemma C10_configure_before_fix_keeps : forall cfgs a d, C10_installed a = Some d ->
+  C10_installed (fold_left C10_configure_before_fix cfgs a) = Some d.
+Proof. induction cfgs as [|c l IH]; intros a d H; cbn [fold_left]; [exact H|].
+  apply IH. unfold C10_configure_before_fix. rewrite H. exact H. Qed.
+Lemma C10_configure_before_fix_seq_first : forall cfgs a c, C10_installed a = None ->
+  C10_installed (fold_left C10_configure_before_fix (c :: cfgs) a) = Some (C10_select None (fst c) (snd c)).
+Proof. intros cfgs a c H. cbn [fold_left]. apply C10_configure_before_fix_keeps.
+  unfold C10_configure_before_fix. rewrite H. reflexivity. Qed.
 
 Section P.
 Context (F : OF).
@@ -108,6 +157,11 @@ Proof. intros maxit s0 r Hs. destruct maxit as [|m]; cbn [C10_run]; [discriminat
 Lemma C10_run_some : forall maxit s0, (0 < maxit)%nat -> exists r, C10_run F step cur stop maxit s0 = Some r.
 Proof. intros [|m] s0 H; [lia|]. eexists. reflexivity. Qed.
 End LoopInv.
+Lemma C10_run_some_iff : forall (S : Type) (step : nat -> S -> S) cur stop maxit s0,
+  (exists r, C10_run F step cur stop maxit s0 = Some r) <-> (0 < maxit)%nat.
+Proof. intros S step cur stop maxit s0. split.
+  - intros [r E]. destruct maxit; [discriminate|lia].
+  - apply C10_run_some. Qed.
 
 (* ------------------------------------------------------------------ 3. backtracking: feasibility of every iterate *)
 Section BT.
@@ -136,6 +190,10 @@ Lemma C10_bt_alpha_range x : 0 <= bt_alpha x /\ bt_alpha x <= 1 /\ bt_alpha x <>
 Proof. unfold C10_bt_alpha. apply C10_alpha_search_range; [apply one_nonneg|apply k_refl|apply one_neq_zero]. Qed.
 
 (* x+ = alpha P(x - g/mu) + (1 - alpha) x *)
+Lemma C10_bt_alpha_full x :
+  0 <= bt_alpha x /\ bt_alpha x <= 1 /\ bt_alpha x <> 0 /\
+  exists j, (j <= afuel)%nat /\ bt_alpha x = Nat.iter j (fun b => half * b) 1.
+Proof. destruct (C10_bt_alpha_range x) as [A [B C]]. repeat split; try assumption. apply C10_alpha_search_pow. Qed.
 Lemma C10_bt_step_convex_comb x i :
   bt_step x i = bt_alpha x * P (bt_arg x) i + (1 - bt_alpha x) * x i.
 Proof. unfold C10_bt_step, C10_bt_dir, vadd, vscale, vsub. ring. Qed.
@@ -307,6 +365,32 @@ Proof. intros Hinv He Hq Hm. unfold C10_ple.
   eapply veq_trans; [apply Htv; eapply veq_trans; [exact Hr|exact E0]|apply Hrt]. Qed.
 End Phys.
 
+(* ------------------------------------------------------------------ 6b. both constraint options on: the installed physical projection
+   maps into the set of the constraint projected LAST (in the option's order); hence every iterate of the three algorithms
+   satisfies that constraint exactly (the other one only to the stopping accuracy of the Dykstra loop, not proved) *)
+Section Installed.
+Context (n : nat) (Peq Pineq : vec -> vec) (eps : F) (order : C10_order) (maxitp : nat) (Hm : (0 < maxitp)%nat).
+Context (Cl : vec -> Prop) (Hlast : forall z, Cl (C10_last_proj F Peq Pineq order z)).
+Notation Pphys := (C10_phys_total F n Peq Pineq eps order maxitp).
+
+Lemma C10_phys_total_into : C10_into Pphys Cl.
+Proof. intro z. unfold C10_phys_total.
+  destruct (C10_proj_physical F n Peq Pineq eps order maxitp z) as [r|] eqn:E.
+  - destruct (C10_proj_physical_last n Peq Pineq eps order maxitp z r E) as [w ->]. apply Hlast.
+  - exfalso. destruct maxitp as [|m]; [lia|]. destruct order; cbn in E; discriminate. Qed.
+
+Lemma C10_bt_physical_last_feasible f g mu gamma afuel : C10_convex Cl -> C10_ext n Cl ->
+  forall stop maxit x0 r, Cl x0 -> C10_bt_run F n Pphys f g mu gamma afuel stop maxit x0 = Some r ->
+  Cl (fst r) /\ Forall Cl (snd r).
+Proof. intros Hc He. apply (C10_bt_run_feasible n Pphys f g mu gamma afuel Cl Hc He C10_phys_total_into). Qed.
+Lemma C10_mom_physical_last_feasible f g gam z0 mag stop maxit x0 m0 r : Cl x0 ->
+  C10_mom_run F Pphys f g gam z0 mag stop maxit x0 m0 = Some r -> Cl (ms_x F (fst r)) /\ Forall Cl (snd r).
+Proof. apply (C10_mom_run_feasible Pphys f g Cl C10_phys_total_into). Qed.
+Lemma C10_fista_physical_last_feasible g delta stop maxit x0 r : Cl x0 ->
+  C10_fista_run F Pphys g delta stop maxit x0 = Some r -> Cl (snd (fst r)) /\ Forall Cl (snd r).
+Proof. apply (C10_fista_run_feasible Pphys g Cl C10_phys_total_into). Qed.
+End Installed.
+
 (* ------------------------------------------------------------------ 7. origin objects satisfy the equality constraint *)
 Lemma C10_origin_eq_state d2 m sd : C10_eq_constraint F TState d2 m sd (C10_origin F TState d2 m sd).
 Proof. reflexivity. Qed.
@@ -325,6 +409,10 @@ Proof. intros Hm b Hb. cbn [C10_origin].
   2:{ intros x _. destruct (divmod_flat x b (d2 * d2) Hb2) as [_ ->]. reflexivity. }
   rewrite C10_sumn_const. unfold C10_delta0. destruct m as [|m']; [lia|].
   destruct (b =? 0)%nat; [|ring]. field. apply C10_ofnat_S_neq0. Qed.
+
+Lemma C10_origin_eq_all ty d2 m sd : (0 < m)%nat -> C10_eq_constraint F ty d2 m sd (C10_origin F ty d2 m sd).
+Proof. destruct ty; intros Hm;
+  [apply C10_origin_eq_state|now apply C10_origin_eq_povm|apply C10_origin_eq_gate|now apply C10_origin_eq_mprocess]. Qed.
 
 (* ------------------------------------------------------------------ 8. a concrete family satisfying the hypotheses
    (used by the non-vacuity examples in Props/C10.v): the interval [0,1] in coordinate 0 with the clamp, and, for the
@@ -365,14 +453,26 @@ Proof. intros z Hz i Hi. unfold C10_ex_Peq. destruct (Nat.eqb_spec i 0) as [->|]
 Lemma C10_ex_Pineq_fixes : C10_fixes 2 C10_ex_Pineq C10_ex_Q.
 Proof. intros z Hz i Hi. unfold C10_ex_Pineq. destruct (Nat.eqb_spec i 1) as [->|]; [|reflexivity].
   apply (k_leb F) in Hz. rewrite Hz. reflexivity. Qed.
+(* hypotheses of the "constraint projected last" theorems on this instance *)
+Lemma C10_ex_E_convex : C10_convex C10_ex_E.
+Proof. intros a b t Ha Hb _ _. unfold C10_ex_E in *. rewrite Ha, Hb. ring. Qed.
+Lemma C10_ex_Q_convex : C10_convex C10_ex_Q.
+Proof. intros a b t Ha Hb T0 T1. unfold C10_ex_Q in *.
+  assert (T2 : 0 <= 1 - t) by (apply (proj1 (le_sub F t 1)); exact T1).
+  apply add_nonneg; apply k_mul; assumption. Qed.
+Lemma C10_ex_last_eq : forall z, C10_ex_E (C10_last_proj F C10_ex_Peq C10_ex_Pineq IneqEq z).
+Proof. intro z. reflexivity. Qed.
+Lemma C10_ex_last_ineq : forall z, C10_ex_Q (C10_last_proj F C10_ex_Peq C10_ex_Pineq EqIneq z).
+Proof. intro z. unfold C10_ex_Q, C10_last_proj, C10_ex_Pineq. cbn [Nat.eqb].
+  destruct (kleb F 0 (z 1%nat)) eqn:E; [apply (k_leb F); exact E|apply k_refl]. Qed.
 End P.
 
 (* ------------------------------------------------------------------ 9. ineq-only projection under on_para_eq_constraint=True
-   leaves the PSD set (finding C10-2): witness over Qc in the diagonal two-qubit family; variables (IZ, ZI, ZZ) = (3/2, 0, 0) *)
+   leaves the PSD set (flags (eq off, ineq on): outside the property's quantifier, see Props/C10.v): witness over Qc in the diagonal two-qubit family; variables (IZ, ZI, ZZ) = (3/2, 0, 0) *)
 From Coq Require Import QArith Qcanon.
 From QV.Core Require Import QcOF.
 Definition C10_wit : @vec Qc_OF := fun i => match i with O => Q2Qc (3 # 2) | _ => 0%Qc end.
-Lemma C10_ineq_with_var_para_eq_refuted_wit :
+Lemma C10_ineq_with_var_para_eq_wit :
   let stacked_proj := C10_d4_Pineq Qc_OF (C10_d4_to_stacked Qc_OF C10_wit) in
   let r := C10_proj_ineq_with_var Qc_OF (C10_d4_to_stacked Qc_OF) (C10_d4_to_var Qc_OF) (C10_d4_Pineq Qc_OF) C10_wit in
   C10_d4_psdb Qc_OF (C10_d4_to_stacked Qc_OF C10_wit) = false /\        (* the input is not PSD *)
@@ -382,3 +482,9 @@ Lemma C10_ineq_with_var_para_eq_refuted_wit :
   Qeq_bool (this (r 0%nat)) 1 = true.
 Proof. repeat split; vm_compute; reflexivity. Qed.
 
+Lemma C10_ineq_with_var_para_eq_not_into_psd :
+  exists v : @vec Qc_OF,
+    C10_d4_psdb Qc_OF (C10_d4_Pineq Qc_OF (C10_d4_to_stacked Qc_OF v)) = true /\
+    C10_d4_psdb Qc_OF (C10_d4_to_stacked Qc_OF
+       (C10_proj_ineq_with_var Qc_OF (C10_d4_to_stacked Qc_OF) (C10_d4_to_var Qc_OF) (C10_d4_Pineq Qc_OF) v)) = false.
+Proof. exists C10_wit. destruct C10_ineq_with_var_para_eq_wit as [_ [A [B _]]]. split; assumption. Qed.
